@@ -15,6 +15,10 @@ HARNESS = dict(
                  ["-include", os.path.join(_H, "memtrace_hooks.h")], "memtrace_hooked")],
 )
 TIMEOUT = 300
+# aws_mem_realloc's emulation path calls memcpy(newptr, NULL, 0) for a NULL *ptr: a recoverable UBSan
+# report (nonnull) that would otherwise be printed into the compared stream
+C_ENV = {"UBSAN_OPTIONS": "print_stacktrace=1:suppressions=" + os.path.join(_H, "memtrace_ubsan.supp")}
+CFGS = {"full": (True, True), "norealloc": (False, True), "nocalloc": (True, False), "minimal": (False, False)}
 TRUSTED = ["hand model lean/AwsVerif/Model/MemTrace.lean (tied by this correspondence run only)",
            "harness/memtrace_hooks.h + verif_atomics.h: force-included macros turning the tracer's atomics and mutex calls into schedule points",
            "harness parent allocator (addresses on command, LIFO reuse, ASan poisoning of slack)",
@@ -24,7 +28,7 @@ ASSUMPTIONS = ["atomics sequentially consistent; the mutex excludes",
                "wrapped allocator contract: returns a non-NULL address that is not live; realloc keeps min(old,new) bytes; calloc zeros",
                "sums are taken mod 2^64 (the counter is a size_t); with real memory the sum of live sizes is < 2^64",
                "realloc to size 0 never reaches the tracer (aws_mem_realloc turns it into a release)"]
-RULE = ("op histories over one tracer (levels none/bytes/stacks, frames 0/1/8/128/200): acq/calloc/realloc(keep|move, grow|shrink|same|0|from NULL)/"
+RULE = ("op histories over one tracer (levels none/bytes/stacks, frames 0/1/8/128/200, wrapped allocator with/without mem_realloc and mem_calloc): acq/calloc/realloc(keep|move, grow|shrink|same|0|from NULL)/"
         "rel/fill/dump/bytes/count/destroy, some operations with another complete operation injected at a schedule point of the tracer; "
         "non-trivial = at least 3 tracked allocations and one realloc or release at a tracing level")
 NOT_PROVED = []
@@ -65,7 +69,9 @@ class _Gen:
         self.nfake = 0
         self.next_id = 0
         self.ops = []
-        self.tags = {"levels": [], "inject": 0, "realloc": 0}
+        self.cfg = "full"
+        self.unbacked = set()
+        self.tags = {"levels": [], "inject": 0, "realloc": 0, "cfgs": []}
 
     def fresh_id(self):
         rng = self.rng
@@ -78,7 +84,8 @@ class _Gen:
     def size(self):
         rng = self.rng
         if self.boundary and rng.random() < 0.35 and self.nfake < 40:
-            return rng.choice(["1048576", "1048577", "HALF", "HALF+1", "HALF+2", "MAX", "MAX-1", "MAX-7", "2097152"])
+            return rng.choice(["1048576", "1048577", "HALF", "HALF+1", "HALF+2", "MAX", "MAX-1", "MAX-7", "2097152",
+                               "4294967296", "4294967301", "8589934592", "4294967295"])
         return str(_rsize(rng))
 
     def alloc_op(self, exclude=()):
@@ -113,9 +120,20 @@ class _Gen:
                 s = str(rng.randint(1, old - 1)) if old < BIG else self.size()
             else:
                 s = self.size()
+            was_unbacked = i in self.unbacked
+            if not CFGS[self.cfg][0]:
+                # the emulation memcpy/memsets real memory: never grow from or into an unbacked block there
+                # (a block shrunk in place by the emulation stays the unbacked block it was), and never ask
+                # realloc for an unbacked size at all (the id may be NULL if an injection was not reached)
+                if was_unbacked and _size_tok(s) > 0:
+                    s = str(rng.randint(1, max(1, min(old, 3000))))     # shrink only
+                elif _size_tok(s) > BIG:
+                    s = str(old + rng.randint(1, 3000)) if old + 3000 <= BIG else str(max(1, old - 5))
             self._drop(i)
             if _size_tok(s) != 0:
                 self._set(i, _size_tok(s))
+                if was_unbacked and not CFGS[self.cfg][0]:
+                    self.unbacked.add(i)
             self.tags["realloc"] += 1
             return f"realloc {i} {s} {rng.choice(['keep', 'move'])}", i
         if r < 0.86:
@@ -130,8 +148,10 @@ class _Gen:
         self.live[i] = sz
         if sz > BIG:
             self.nfake += 1
+            self.unbacked.add(i)
 
     def _drop(self, i):
+        self.unbacked.discard(i)
         if self.live.get(i, 0) > BIG:
             self.nfake -= 1
         self.live.pop(i, None)
@@ -140,20 +160,27 @@ class _Gen:
         rng = self.rng
         lvl = rng.choice(["none", "bytes", "bytes", "bytes", "stacks", "stacks", "stacks"])
         frames = rng.choice([0, 1, 8, 128, 200])
+        self.cfg = rng.choice(["full", "full", "full", "norealloc", "norealloc", "minimal", "minimal", "nocalloc"])
         self.tags["levels"].append(lvl)
-        self.ops.append(f"new {lvl} {frames}")
+        self.tags["cfgs"].append(self.cfg)
+        self.ops.append(f"new {lvl} {frames}" + ("" if self.cfg == "full" and rng.random() < 0.5 else f" {self.cfg}"))
         if lvl == "stacks" and rng.random() < 0.3:
             self.ops.append(f"depth {rng.choice([1, 5, 140, 210])}")
         for _ in range(nops):
             if rng.random() < 0.18:
                 # the next operation gets another complete operation injected at one of its schedule points
-                save = (dict(self.live), self.nfake, self.next_id)
+                save = (dict(self.live), self.nfake, self.next_id, set(self.unbacked))
                 main, mid = self.alloc_op()
-                self.live, self.nfake, self.next_id = save
+                self.live, self.nfake, self.next_id, self.unbacked = save
                 # bookkeeping order: the injected operation completes first or in the middle; ids are disjoint,
                 # so the final live set does not depend on where it lands
                 excl = {mid} if mid else set()
+                emu = not CFGS[self.cfg][0]
+                if emu:     # an injection may stay unreached: on the emulated path it must not decide what is backed
+                    excl |= self.unbacked
+                savb, self.boundary = self.boundary, self.boundary and not emu
                 inj, _ = self.alloc_op(exclude=excl | {f"p{self.next_id}"})
+                self.boundary = savb
                 # re-apply the main operation's effect
                 self._apply(main)
                 if mid:
@@ -209,9 +236,12 @@ class _Gen:
         elif t[0] == "calloc":
             self._set(t[1], int(t[2]) * int(t[3]))
         elif t[0] == "realloc":
+            was_unbacked = t[1] in self.unbacked
             self._drop(t[1])
             if _size_tok(t[2]) != 0:
                 self._set(t[1], _size_tok(t[2]))
+                if was_unbacked and not CFGS[self.cfg][0]:
+                    self.unbacked.add(t[1])
         elif t[0] == "rel":
             self._drop(t[1])
 
@@ -226,6 +256,7 @@ def gen_case(rng, maxops, boundary=False):
 
 
 MALFORMED = [
+    ["new bytes 8 sideways", "new bytes 8 minimal extra", "new none 8 nocalloc", "calloc p0 2 2", "realloc p0 9 keep", "destroy"],
     ["acq p1 5"],                                    # no tracer
     ["new bytes 8", "new bytes 8", "destroy", "destroy"],
     ["new stacks 8", "acq p1 0", "calloc p2 0 4", "calloc p3 4 0", "calloc p4 MAX 2", "acq p5 9", "acq p5 9", "frob p1", "rel", "destroy"],
@@ -234,34 +265,35 @@ MALFORMED = [
 ]
 
 
-def exhaustive_cases(level):
+def exhaustive_cases(level, cfg="full"):
     """every history of length 3 over two ids from a small alphabet (incl. NULL and zero-size reallocs)"""
-    alpha = ["acq p0 5", "calloc p1 2 3", "realloc p0 9 keep", "realloc p0 2000 keep", "realloc p1 0 move", "realloc p1 4 move",
+    alpha = ["acq p0 5", "calloc p1 2 3", "realloc p0 9 keep", "realloc p0 2000 keep", "realloc p0 3 move", "realloc p1 0 move", "realloc p1 4 move",
              "rel p0", "rel p1", "dump"]
     out = []
     for a in alpha:
         for b in alpha:
             for c in alpha:
-                out.append(Case([f"new {level} 8", a, b, c, "destroy"], {"levels": [level], "exhaustive": True, "inject": 0, "realloc": 1}))
+                out.append(Case([f"new {level} 8 {cfg}", a, b, c, "destroy"],
+                                {"levels": [level], "cfgs": [cfg], "exhaustive": True, "inject": 0, "realloc": 1}))
     return out
 
 
-def injection_sweep(level):
+def injection_sweep(level, cfg="full"):
     """every (main op, schedule point, injected op) over a fixed prefix"""
-    mains = ["acq p5 40", "calloc p5 2 9", "realloc p0 300 keep", "realloc p0 3000 move", "realloc p0 0 keep", "realloc p7 12 move",
+    mains = ["acq p5 40", "calloc p5 2 9", "realloc p0 300 keep", "realloc p0 3000 move", "realloc p0 60 keep", "realloc p0 0 keep", "realloc p7 12 move",
              "rel p0", "rel p7", "dump", "count", "bytes"]
     injs = ["acq p6 11", "rel p1", "realloc p1 77 move", "count", "dump", "calloc p6 3 3"]
     pts = [("RMW", 1), ("RMW", 2), ("LOCK", 1), ("LOCK", 2), ("LOCK", 3), ("UNLOCK", 1), ("UNLOCK", 2), ("UNLOCK", 3), ("LOAD", 1), ("LOAD", 2)]
     out = []
     for m in mains:
         for (k, n) in pts:
-            ops = [f"new {level} 8", "acq p0 100", "fill p0 9", "acq p1 50"]
+            ops = [f"new {level} 8 {cfg}", "acq p0 100", "fill p0 9", "acq p1 50"]
             for j in injs:
                 ops += [f"inject {k} {n} {j}", m, "dump"]
                 # restore the prefix state for the next triple
                 ops += ["rel p5", "rel p6", "rel p7", "rel p0", "rel p1", "acq p0 100", "fill p0 9", "acq p1 50"]
             ops.append("destroy")
-            out.append(Case(ops, {"levels": [level], "inject": len(injs), "realloc": 1, "sweep": True}))
+            out.append(Case(ops, {"levels": [level], "cfgs": [cfg], "inject": len(injs), "realloc": 1, "sweep": True}))
     return out
 
 
@@ -272,9 +304,12 @@ def gen_cases(rng, tier):
     cases += [gen_case(rng, 30, boundary=True) for _ in range(n // 6)]
     for lvl in ("bytes", "stacks", "none"):
         cases += injection_sweep(lvl)
-    cases += exhaustive_cases("bytes")
+    cases += injection_sweep("bytes", "minimal") + injection_sweep("stacks", "norealloc")
+    cases += exhaustive_cases("bytes") + exhaustive_cases("bytes", "minimal")
     if tier == "thorough":
-        cases += exhaustive_cases("stacks") + exhaustive_cases("none")
+        for cfg in CFGS:
+            cases += exhaustive_cases("stacks", cfg) + exhaustive_cases("none", cfg)
+        cases += exhaustive_cases("bytes", "norealloc") + exhaustive_cases("bytes", "nocalloc")
     return cases
 
 
@@ -286,8 +321,9 @@ def _digest(bs):
 class _Ref:
     """reference bookkeeping: live set with requested sizes and the bytes the client must see"""
 
-    def __init__(self, level):
+    def __init__(self, level, cfg="full"):
         self.level = level
+        self.has_realloc, self.has_calloc = CFGS[cfg]
         self.live = {}   # id -> [size, data-bytearray | None]
 
     def total(self):
@@ -324,7 +360,8 @@ class _Ref:
             if new == 0:
                 return t[1]
             if old is None:
-                self.live[t[1]] = [new, self.data(new, b"", JUNK)]
+                # realloc(NULL): a native realloc acquires (junk); the emulation zero-fills what it did not copy
+                self.live[t[1]] = [new, self.data(new, b"", JUNK if self.has_realloc else 0)]
             else:
                 # contents: first min(old,new) bytes kept whenever both blocks are backed.  A block that
                 # stays in place keeps its (un)backed nature; that is the parent's business (not checked here)
@@ -388,7 +425,10 @@ def oracle(case, lines):
             if d["h"] == "-":
                 ent[1] = None
                 return
-            exp = _Ref.data(ent[0], old[1] if old[1] is not None else b"", JUNK)
+            if ref.has_realloc:
+                exp = _Ref.data(ent[0], old[1] if old[1] is not None else b"", JUNK)
+            else:   # emulation: old >= new leaves the block alone; otherwise copy + zero-fill
+                exp = _Ref.data(ent[0], old[1] if old[1] is not None else b"", 0)
             if exp is None:    # new size is huge but the block is backed?  cannot be
                 errs.append(f"{what}: backed block of {ent[0]} bytes")
                 return
@@ -410,11 +450,11 @@ def oracle(case, lines):
         if errs and len(errs) > 6:
             break
         if t[0] == "new":
-            if ref is not None or t[1] not in ("none", "bytes", "stacks") or len(t) != 3:
+            if ref is not None or len(t) not in (3, 4) or t[1] not in ("none", "bytes", "stacks") or (len(t) == 4 and t[3] not in CFGS):
                 if nxt() != "bad-op":
                     errs.append(f"{op}: expected bad-op")
                 continue
-            ref = _Ref(t[1])
+            ref = _Ref(t[1], t[3] if len(t) == 4 else "full")
             pending = None
             check_stat(nxt(), op)
             continue
@@ -551,9 +591,11 @@ def distribution(cases, c_out):
         for o in c.ops:
             t = o.split()
             d["ops"][t[0]] = d["ops"].get(t[0], 0) + 1
-            if t[0] == "new" and len(t) == 3:
+            if t[0] == "new" and len(t) in (3, 4):
                 d["levels"][t[1]] = d["levels"].get(t[1], 0) + 1
                 d["frames"][t[2]] = d["frames"].get(t[2], 0) + 1
+                c_ = t[3] if len(t) == 4 else "full"
+                d.setdefault("parent_cfg", {})[c_] = d.setdefault("parent_cfg", {}).get(c_, 0) + 1
             if t[0] == "inject" and len(t) > 3:
                 d["injected"] += 1
                 k = t[1] + t[2]
@@ -595,7 +637,7 @@ def _threads_check(out):
 
 
 def _threads_run(ctx, exe, args):
-    rc, out, _ = core.run_stream([exe, "threads"] + [str(a) for a in args], "", 120)
+    rc, out, _ = core.run_stream([exe, "threads"] + [str(a) for a in args], "", 120, C_ENV)
     errs = _threads_check(out) if rc == 0 else [f"threads run rc={rc}: " + out[-1500:]]
     ctx.cov["evaluations"] += 1
     ctx.cov["threads_runs"] = ctx.cov.get("threads_runs", 0) + 1
@@ -612,7 +654,8 @@ def extra_stages(ctx):
     for _ in range(reps):
         for lvl, frames in (("bytes", 0), ("stacks", rng.choice([1, 8, 200])), ("none", 8)):
             nt = rng.choice([2, 3, 4])
-            args = (rng.randint(1, 10 ** 6), nt, 5, 250 if ctx.tier == "quick" else 1500, lvl, frames)
+            cfg = rng.choice(["full", "norealloc", "minimal", "nocalloc"])
+            args = (rng.randint(1, 10 ** 6), nt, 5, 250 if ctx.tier == "quick" else 1500, lvl, frames, cfg)
             if _threads_run(ctx, exe, args):
                 return
 
